@@ -56,7 +56,24 @@ claim("C10", "model_checking",
       "Trusted: strace decoding + tools/strace2ndjson.py, the hook placement, TLC. Crash = process death (not power loss). EFBIG stands in for ENOSPC.",
       "TLA+ protocol model (SpecWrite) checked by TLC + trace validation of strace traces against FSTrace + hook-driven crash/fault injection", "5 C10, 4.5", "specwrite")
 
+AUTO_NOTE = ("Trusted: the model of inotify/fsnotify delivery (from reading fsnotify 1.5.1), the gate hook placement, the 10 s/2 s timing windows, TLC. "
+             "Liveness is checked under weak fairness on delivery, handler and queries; on the code, convergence is observed by polling.")
+claim("C11", "model_checking",
+      "CacheAuto is a TLA+ model of directories, kernel inotify queues, the fsnotify reader, the watcher goroutine and queries; TLC checks convergence (liveness under fairness) over every history of <=4/6 operations of the statement's list at every interleaving. Seeded behaviours and the counter-example schedules the model yields when a repair is switched off are executed on a real auto-refresh cache at three pacings (free, the recorded schedule enforced by a blocking gate at watch.prelock, watcher held to the end) and the query API is polled until it equals a fresh cache.",
+      AUTO_NOTE, "TLA+ model (CacheAuto) with liveness checked by TLC; behaviours and directed counter-example schedules replayed into a real auto-refresh cache through a scheduler gate", "5 C11, 4.2", "cacheauto")
+claim("C20", "model_checking",
+      "Same model with Configure (new watcher and dirErrors map per configuration, goroutines keeping captured arguments, descriptor shortage): TLC checks ConfigureFresh, Bounded, Settles, WatchesOK and convergence over <=2/3 reconfigurations; behaviours are replayed on a real cache; a separate process performs 200/2000 reconfigurations watching inotify descriptors, kernel watches and goroutines, the reaction to changes in final vs dropped directories, descriptor exhaustion before/between reconfigurations and the default cache.",
+      AUTO_NOTE, "TLA+ model (CacheAuto with Configure) checked by TLC; behaviours replayed; /proc-based resource probes over long reconfiguration sequences", "5 C20", "cacheauto")
+claim("C12", "model_checking",
+      "Lock discipline as a TLA+ model over Go memory locations (read/write sets of prelude and critical section per public operation, watcher goroutine, atomic switcher): TLC checks NoRace, MutualExclusion, SnapshotOK and deadlock freedom over every interleaving of the explored client programs. The same programs run replicated on all cores under the race detector against a real cache whose directory is flipped by rename between two contents; any race report, any result that is neither content, any stall is a violation.",
+      "Exhaustive for the model; statistical for the code (race detector sound for executions seen). The read/write-set table is a transcription of cache.go.",
+      "TLA+ lock-discipline model (CacheConc) checked by TLC; the explored client programs executed as a -race stress against the real cache", "5 C12", "cacheconc")
+
 ENGINES = [
+ {"name": "cacheauto", "path": "spec/CacheAuto.tla harness/autoreplay.go harness/reconf.go", "serves_properties": ["C11", "C20", "C01"],
+  "kind_free_text": "TLA+ model of the auto-refresh cache incl. kernel queues, goroutines and Configure; replay with a scheduler gate; resource probes"},
+ {"name": "cacheconc", "path": "spec/CacheConc.tla harness/stress.go", "serves_properties": ["C12"],
+  "kind_free_text": "lock-discipline model + race-detector stress of TLC's client programs"},
  {"name": "specwrite", "path": "spec/SpecWrite.tla spec/FSTrace.tla harness/writer.go tools/strace2ndjson.py", "serves_properties": ["C10"],
   "kind_free_text": "protocol model + generic FS trace spec; real writer observed through hooks, kill -9, RLIMIT_FSIZE and strace"},
  {"name": "specdoc", "path": "spec/SpecDoc.tla spec/SpecDocGen.tla spec/MCSpecDoc.tla harness/specdoc.go", "serves_properties": ["C05", "C06"],
